@@ -11,12 +11,23 @@ def mkTok (k : TokKind) (s : String) : Tok := ⟨k, s, false, false⟩
 def symT (s : String) : Tok := mkTok .sym s
 def wordT (s : String) : Tok := mkTok .word s
 
-/-- words the expression grammar reserves -/
+/-- the words the expression grammar reads as something other than a name *where a name can stand* (the start of a logic operand
+    or of an atom): the prefix operators, the quantifiers, the literals and the constants. The infix keywords (`and or implies iff
+    in to`) are not among them: the contextual lexer reads `{ and and and }` as the conjunction of the field `and` with itself. -/
 def reservedWords : List String :=
-  ["implies", "iff", "or", "and", "not", "forall", "exists", "in", "to", "True", "False", "INF", "NAN", "PI", "E"]
+  ["not", "forall", "exists", "True", "False", "INF", "NAN", "PI", "E"]
 
-/-- an identifier that is not reserved -/
+/-- an identifier that can be written bare as a field or function name -/
 def isName (s : String) : Bool := isCName s && !reservedWords.contains s
+
+/-- the keywords that open a logic operand (`negation`, `quantification`) -/
+def isLogicKw (t : Tok) : Bool := isKw t "not" || isKw t "forall" || isKw t "exists"
+
+/-- a word token that is a name wherever an atom can stand: an identifier other than the literals `True` / `False` and - unless it is
+    glued to a preceding word character - the named constants. (`not`, `forall`, `exists` are names there too: the contextual lexer
+    offers the keyword terminals only at the start of a logic operand, see `Renders.up`.) -/
+def isNameTok (t : Tok) : Bool :=
+  isCName t.text && t.text != "True" && t.text != "False" && !(!t.afterWord && (numberConstant t.text).isSome)
 
 /-- the token of a literal -/
 def litTok (tok : String) (v : LitVal) : Tok :=
